@@ -99,7 +99,7 @@ func main() {
 		}
 		var r struct {
 			Property, Signature, Stage, Tier string
-			Idx, Seed                       uint64
+			Idx, Seed                        uint64
 		}
 		if err := json.Unmarshal(b, &r); err != nil {
 			fmt.Fprintln(os.Stderr, err)
